@@ -489,6 +489,7 @@ def generator_cases(ctx: Ctx, per_gen: int, acs: bool):
                 if name == "VariableDensityPoisson" and not racs and not acs:      # C04's own call only (C06 reuses this generator)
                     yield from bisection_trace_cases(s, res)
                 a = answer(res)
+                _SPEC_BY_LINE[ln] = s
                 yield {"line": ln, "impl": (lambda a=a: a), "nontrivial": res.get("ok", False),
                        "bucket": f"gen/{name}/{mode}/" + ("acs" if racs else "mask") + ("+opts" if s.get("extra") else "")
                                  + ("+kernel-model" if ln.startswith("gen_poisson") else "")
@@ -837,8 +838,46 @@ def coincidence_cases(ctx: Ctx):
                 if ln is None:
                     continue
                 a = answer(res)
+                _SPEC_BY_LINE[ln] = spec
                 yield {"line": ln, "impl": (lambda a=a: a), "nontrivial": res.get("ok", False),
                        "bucket": f"coincidence/{cls}/{name}/{mode}"}
+
+
+_SPEC_BY_LINE: dict[str, dict] = {}      # protocol line of a generator case -> the real call it came from
+
+
+def _describe_difference(spec: dict, impl: str, model: str) -> str:
+    """which clause of the property the real mask departs from, given the model's mask for the same recorded draws"""
+    if impl.startswith("err") or model.startswith("err"):
+        return f"the real call gives `{impl[:60]}`, the recorded draws determine `{model[:60]}`"
+    try:
+        (ish, irows), (msh, mrows) = [[list(map(int, g.split())) for g in x[3:].split("|")] for x in (impl, model)]
+    except ValueError:
+        return "real mask and model mask differ"
+    if ish != msh:
+        return f"the real mask has shape {ish}, the documented geometry is {msh}"
+    rows = spec["shape"][-3]
+    bad = sorted({k // rows for k, (a, b) in enumerate(zip(irows, mrows)) if a != b})
+    return (f"frame(s) {bad[:6]} of the real mask are not the pattern that the draws recorded for that frame determine "
+            f"(pattern of frame t OR ACS, tiled over the rows): each frame must get its own pattern")
+
+
+def search(ctx: Ctx, dis: list, lean):
+    """failing-input search seeded with the correspondence disagreements: a real generator call whose mask is not the one the
+    recorded draws determine (the model's theorems: frame t = pattern t OR acs, rows identical, documented shape) IS a
+    concrete failing input — report it with the call as the replay"""
+    seen = set()
+    for d in dis:
+        spec = _SPEC_BY_LINE.get(d.get("line"))
+        if spec is None:
+            continue
+        key = f"mask-not-determined-by-its-draws-{spec['gen']}-" + ("acs" if spec.get("return_acs") else "mask")
+        if key in seen:
+            continue
+        seen.add(key)
+        yield Violation(key, f"{spec['gen']} ({spec['mode']}) shape {spec['shape']} seed {spec.get('seed')}: "
+                        + _describe_difference(spec, d["impl"], d["model"]),
+                        {"op": "model", "spec": spec, "observed": d["impl"][:400], "expected": d["model"][:400]})
 
 
 def coincidence_oracle(ctx: Ctx, seen: set, deep: bool):
@@ -1282,6 +1321,17 @@ def replay(rep: dict) -> bool:
             return True
         d, base = r["forms"].get(rep["form"], {}), r["forms"]["tuple/pos"]
         return (not _same(d, base)) or (base.get("ok") and base["shape"] != expected_shape(rep["spec"]["mode"], rep["spec"]["shape"]))
+    if rep.get("op") == "model":
+        import core
+
+        s = rep["spec"]
+        w_, to_, _ = route(s)
+        res = w_.run(s, to_)
+        _kernel_budget["left"] = 1
+        ln = gen_lines(s, res)
+        if ln is None:
+            return True
+        return core.run_driver(PROP, [ln])[0].strip() != answer(res).strip()
     if rep.get("op") == "seeds":
         r = sites_worker().run(dict(rep["spec"], kind="seeds", ladder=[rep["seed"]] if "seed" in rep else None), 240.0) \
             if "seed" in rep else sites_worker().run(dict(rep["spec"], kind="seeds"), 240.0)
